@@ -827,6 +827,70 @@ func checkC18(w *World, c *Check, tier string) {
 			c.ok("C18.merge", key, w.InstrPos(a.instr), "to."+fname+" ← from."+fname)
 		}
 	}
+	// ---- const: before the merge, the dispatcher writes nothing into `to` that could survive it. A constant stored into
+	// a property of `to` ("an untyped receiver is an Object") is harmless only while the merge function overwrites that
+	// property from `from` on every path; once that overwrite becomes conditional the constant is what `to` ends up with —
+	// neither the value it had nor the value `from` has ----
+	for _, f := range []*ssa.Function{copyItem, disp} {
+		if f == nil {
+			continue
+		}
+		for _, g := range append([]*ssa.Function{f}, allAnon(f)...) {
+			for _, b := range g.Blocks {
+				for _, in := range b.Instrs {
+					st, ok := in.(*ssa.Store)
+					if !ok {
+						continue
+					}
+					k, isConst := unwrap(st.Val).(*ssa.Const)
+					if !isConst || isZeroConst(k.Value) {
+						continue
+					}
+					fa, ok := st.Addr.(*ssa.FieldAddr)
+					if !ok {
+						continue
+					}
+					sn := namedOf(fa.X.Type())
+					if sn == nil || w.StructInfoOf(sn.Obj().Name()) == nil {
+						continue
+					}
+					fname := fieldNameOf(fa.X.Type(), fa.Field)
+					// a merge function handed this struct afterwards that overwrites the property from `from` on every path?
+					overwritten := false
+					for _, call := range callsIn(g) {
+						m := call.Common().StaticCallee()
+						if m == nil || !merges[m] || len(call.Common().Args) < 2 || call.Common().Args[0] != fa.X || !blockReaches(b, call.Block()) {
+							continue
+						}
+						for _, mb := range m.Blocks {
+							if !dominatesAllReturns(mb) {
+								continue
+							}
+							for _, min := range mb.Instrs {
+								ms, isSt := min.(*ssa.Store)
+								if !isSt {
+									continue
+								}
+								if fp, ok := pr.fieldOf(ms.Addr); ok && len(fp.Names) == 1 && fp.Names[0] == fname && fp.Root == pr.canonicalRoot(m.Params[0]) {
+									for _, r := range pr.prov(ms.Val).list() {
+										if len(r.Names) == 1 && r.Names[0] == fname && r.Root == pr.canonicalRoot(m.Params[1]) {
+											overwritten = true
+										}
+									}
+								}
+							}
+						}
+					}
+					key := fmt.Sprintf("%s:const:%s.%s", funcName(g), sn.Obj().Name(), fname)
+					if overwritten {
+						c.ok("C18.frame", key, w.InstrPos(st), "overwritten from `from` on every path of the merge that follows")
+					} else {
+						c.bad("C18.frame", key, w.InstrPos(st), fmt.Sprintf("%s stores the constant %s into %s of the value being updated and nothing overwrites it from the update on every path: after a successful merge `to` can carry a %s that is neither the one it had nor the one `from` has", funcName(g), k.String(), fname, strings.ToLower(fname)))
+					}
+				}
+			}
+		}
+	}
 	// ---- complete: a successful return comes after the merge of every property. For each merge function, each return
 	// that is not an error return, and each merged property: every path from the entry to that return passes the
 	// property's merge (the store, or a branch above it that tests that very property of the update). A shortcut
